@@ -63,7 +63,11 @@ func (store *Store) accountQueryContext(qb query.Builder, q GetAccountsQuery) (s
 			}
 			switch address := value.(type) {
 			case string:
-				return filterAccountAddress(address, "accounts.address"), nil, nil
+				clause, err := filterAccountAddress(address, "accounts.address")
+				if err != nil {
+					return "", nil, err
+				}
+				return clause, nil, nil
 			default:
 				return "", nil, newErrInvalidQuery("unexpected type %T for column 'address'", address)
 			}
